@@ -853,9 +853,9 @@ func TestVF_C11(t *testing.T) {
 		"oracle = Prometheus index.NewFileReader (LabelNames, SortedLabelValues, Symbols, PostingsRanges): names, values of every name, every symbol, PostingsOffset of every present value and of absent values, " +
 		"and PostingsOffsets of generated sorted lists (present/absent-before/between/after, duplicates, runs over several sampled groups) must agree, missing values = {-1,-1}/NotFoundRangeErr; " +
 		"exact ranges except the End of the last offset-table entry (>= true end, <= index size); answers must be stable: LabelNames/LabelValues/PostingsOffsets are asked again after the caller edited the earlier result in place, " +
-		"and the last 2..4 readers (both kinds, across indexes) stay open and a sample of all comparisons is repeated on them after each newer header was built and after GC cycles (fingerprint infix later:); distinct/non-trivial = (index, rate, name, list) with >=2 values of which >=1 present")
+		"and the last 2..4 readers (both kinds, across indexes) stay open and a sample of all comparisons is repeated on them after each newer header was built and after GC cycles (fingerprint infix later:); per index a burst of 4 readers of this and the previous index built back to back and only then compared; distinct/non-trivial = (index, rate, name, list) with >=2 values of which >=1 present")
 	nIdx := r.N(60, 300)
-	nLists := r.N(200, 120)
+	nLists := r.N(150, 120)
 	rates := []int{1, 2, 3, 5, 32, 64}
 	if r.Thorough() {
 		rates = rates[:0]
@@ -871,6 +871,9 @@ func TestVF_C11(t *testing.T) {
 	root := t.TempDir()
 
 	var live []vfc11Live // the most recently built readers, oldest first
+	var prevIx *vfc11Index
+	var prevO *vfc11Oracle
+	var prevDir string
 	built := 0
 	defer func() {
 		for _, l := range live {
@@ -932,6 +935,46 @@ func TestVF_C11(t *testing.T) {
 		}
 		hdrDir := filepath.Join(root, fmt.Sprintf("hdr%d", c))
 		kindRng := r.RandS("reader-kind", c)
+		// Burst: headers of two different blocks (this index and the previous one) are built back to back,
+		// as a store gateway does when it syncs many blocks, and only then used.
+		if prevIx != nil {
+			burstDir := filepath.Join(root, fmt.Sprintf("burst%d", c))
+			var burst []vfc11Live
+			for k := 0; k < 4; k++ {
+				bix, bo := prevIx, prevO
+				if k%2 == 1 {
+					bix, bo = ix, o
+				}
+				brc := &vfc11ReaderCase{c: c, ix: vfc11Describe(bix), rate: vfkit.Pick(kindRng, rates), kind: vfkit.Pick(kindRng, []string{"file", "memory"}), vals: bo.values, names: bo.names, phase: "later:", light: true}
+				if k == 3 {
+					brc.phase = ""
+				}
+				var bbr *BinaryReader
+				var berr error
+				r.Guard(c, "new-binary-reader", brc.wit(nil), func() {
+					bbr, berr = vfc11OpenReader(ctx, bix, burstDir, brc.rate, brc.kind)
+				})
+				if bbr == nil {
+					if berr != nil {
+						r.Eval(1)
+						r.Violation(c, fmt.Sprintf("v%d:open-failed", bo.version), fmt.Sprintf("NewBinaryReader(rate=%d,%s) failed on an index Prometheus reads: %v", brc.rate, brc.kind, berr), brc.wit(nil))
+					}
+					continue
+				}
+				burst = append(burst, vfc11Live{rc: brc, br: bbr, o: bo})
+			}
+			for k, b := range burst {
+				r.Count("burst_readers_"+b.rc.kind, 1)
+				r.Guard(c, fmt.Sprintf("v%d:%sreader-call", b.o.version, b.rc.phase), b.rc.wit(nil), func() {
+					vfc11CheckReader(r, b.rc, b.br, b.o, r.RandS(fmt.Sprintf("burst-%d", k), c), 0)
+				})
+			}
+			for _, b := range burst {
+				_ = b.br.Close()
+			}
+			_ = os.RemoveAll(burstDir)
+			_ = os.RemoveAll(prevDir)
+		}
 		for ri, rate := range rates {
 			// file- and memory-backed readers mixed; the first two of an index alternate so that both occur
 			kind := []string{"file", "memory"}[(c+ri)%2]
@@ -978,11 +1021,10 @@ func TestVF_C11(t *testing.T) {
 				live = live[1:]
 			}
 		}
-		// scratch hygiene: a thorough run writes hundreds of indexes
+		// scratch hygiene: a thorough run writes hundreds of indexes (the index itself is kept for the
+		// burst of the next case)
 		_ = os.RemoveAll(hdrDir)
-		if c < nIdx {
-			_ = os.RemoveAll(filepath.Join(root, fmt.Sprintf("c%d", c)))
-		}
+		prevIx, prevO, prevDir = ix, o, filepath.Join(root, fmt.Sprintf("c%d", c))
 	}
 }
 
